@@ -102,10 +102,38 @@ def gen_specs(run):
             for vm in v["vmembers"]:
                 if vm["proof"] >= 1:
                     vm["proof"] = vm["proof"] - 1 + off
+    # batches that span several internal chunks of 256: every member must be bound to ITS OWN transcript (context), also beyond the first chunk
+    for bi, k in enumerate([257, 300] if quick else [257, 300, 513, 600, 1025]):
+        mems = [gen.mk_member(rng, 2, 1, T=1, ctx={"label": f"c04-batch-{i}", "msgs": [["who", "%02x" % i]]}) for i in range(5)]
+        vm = [gen.vmember(mems[i % 5], i % 5) for i in range(k)]
+        verifies, tags = [{"mode": "VerifyOnly", "vmembers": list(vm), "log": False}], [("honest", True)]
+        for pos in sorted({0, 255, 256, k - 1, rng.randrange(256, k)}):
+            vm2 = list(vm)
+            vm2[pos] = gen.vmember(mems[pos % 5], pos % 5, ctx={"label": f"c04-batch-{pos % 5}", "msgs": [["who", "ff"]]})
+            verifies.append({"mode": "VerifyOnly", "vmembers": vm2, "log": False})
+            tags.append((f"context of member {pos} of {k} perturbed", False))
+            vm3 = list(vm)
+            other = (pos + 1) % 5
+            vm3[pos] = gen.vmember(mems[pos % 5], pos % 5, ctx=mems[other]["ctx"])
+            verifies.append({"mode": "VerifyOnly", "vmembers": vm3, "log": False})
+            tags.append((f"member {pos} of {k} verified under the context of another member", False))
+        specs.append({"id": f"c04-batch-{bi}", "group": "fm", "members": mems, "verifies": verifies, "_role": "batch", "_tags": tags, "_conf": [2, 1, 1],
+                      "with_gens": False, "log_msm": False})
     return specs
 
 
 def oracle(run, s, o):
+    if s.get("_role") == "batch":
+        rp = {"kind": "session", "spec": sessions.strip(s)}
+        for vi, ((tag, want_ok), vo) in enumerate(zip(s["_tags"], o["verifies"])):
+            res = vo["result"]
+            run.count(["c04b", len(s["verifies"][vi]["vmembers"]), tag.split(" of ")[0] if vi else tag, res.split(":")[0]], {"batch": len(s["verifies"][vi]["vmembers"]), "case": tag, "result": res[:60]})
+            run.bump("batch cases")
+            if want_ok and res != "ok":
+                run.violation(f"batch of {len(s['verifies'][vi]['vmembers'])} valid proofs, each under its own context, refused: {res[:80]}", dict(rp, verify=vi))
+            if not want_ok and res == "ok":
+                run.violation(f"batch accepted although the {tag}: its challenges do not depend on its own transcript", dict(rp, verify=vi))
+        return
     b, m, T = s["_conf"]
     rp = {"kind": "session", "spec": sessions.strip(s)}
     base = chals_of(o["verifies"][0])
